@@ -183,8 +183,9 @@ def run(ctx, rep):
             rep.machinery('ANCHOR-MISSING ' + name)
             continue
         n = 0
-        for bi in fn.reachable():
-            blk = fn.blocks[bi]
+        bodies = [fn] + [f2 for n2, f2 in facts.fns.items() if n2.startswith(name + '::{closure')]
+        for fb, bi in [(fb, bi) for fb in bodies for bi in fb.reachable()]:
+            blk = fb.blocks[bi]
             for s in blk['stmts']:
                 if s['k'] == 'assign':
                     from model import operands_of_rvalue, op_const
